@@ -99,20 +99,24 @@ fn slot_value(s: Slot, tag: i64) -> Option<MV> {
     }
 }
 
+/// The one scalar / one object of fixed-value mode: scalar 7 and {a: 7}.
+const FIXED_TAG: i64 = 7;
+
 fn slot_map(a: Slot, b: Slot, tag: i64) -> BTreeMap<&'static str, MV> {
+    let fixed = tag == FIXED_TAG;
     let mut m = BTreeMap::new();
-    if let Some(v) = slot_value(a, tag + 1) {
+    if let Some(v) = slot_value(a, if fixed { tag } else { tag + 1 }) {
         m.insert("a", v);
     }
-    if let Some(v) = slot_value(b, tag + 2) {
+    if let Some(v) = slot_value(b, if fixed { tag } else { tag + 2 }) {
         m.insert("b", v);
     }
     m
 }
 
 impl Model {
-    fn new(base: (Slot, Slot)) -> Model {
-        Model { layers: vec![Layer::Counters(BTreeMap::new()), Layer::Data(slot_map(base.0, base.1, 0)), Layer::Global(BTreeMap::new())] }
+    fn new(base: (Slot, Slot), fixed: bool) -> Model {
+        Model { layers: vec![Layer::Counters(BTreeMap::new()), Layer::Data(slot_map(base.0, base.1, if fixed { FIXED_TAG } else { 0 })), Layer::Global(BTreeMap::new())] }
     }
     fn lookup(&self, path: &[&str]) -> Option<MV> {
         for l in self.layers.iter().rev() {
@@ -296,13 +300,15 @@ enum Flow<'a> {
 /// Interpret `ops` on top of `rt`. `pos` is the 1-based index of ops[0] in the whole history
 /// (it makes every written value unique). Observes after every operation when `obs_all`, and
 /// always at the end of the history on the then-current top frame.
-fn interp<'a>(rt: &dyn Runtime, mut ops: &'a [Op], mut pos: usize, depth: usize, model: &mut Model, obs_all: bool, st: &mut Stats) -> Result<Flow<'a>, Fail> {
+fn interp<'a>(rt: &dyn Runtime, mut ops: &'a [Op], mut pos: usize, depth: usize, model: &mut Model, obs_all: bool, fixed: bool, st: &mut Stats) -> Result<Flow<'a>, Fail> {
     loop {
         let Some(op) = ops.first().copied() else {
             observe(rt, model, st)?;
             return Ok(Flow::End);
         };
-        let tag = pos as i64 * 100;
+        // unique mode: every written value is derived from the operation's position (attributable
+        // reads); fixed mode: the quantifier's two values only, so that EQUAL values meet
+        let tag = if fixed { FIXED_TAG } else { pos as i64 * 100 };
         let rest = &ops[1..];
         match op {
             Op::PushPlain(a, b) | Op::PushSandbox(a, b) => {
@@ -315,13 +321,13 @@ fn interp<'a>(rt: &dyn Runtime, mut ops: &'a [Op], mut pos: usize, depth: usize,
                     if obs_all {
                         observe(&frame, model, st)?;
                     }
-                    interp(&frame, rest, pos + 1, depth + 1, model, obs_all, st)?
+                    interp(&frame, rest, pos + 1, depth + 1, model, obs_all, fixed, st)?
                 } else {
                     let frame = StackFrame::new(rt, &data);
                     if obs_all {
                         observe(&frame, model, st)?;
                     }
-                    interp(&frame, rest, pos + 1, depth + 1, model, obs_all, st)?
+                    interp(&frame, rest, pos + 1, depth + 1, model, obs_all, fixed, st)?
                 };
                 match flow {
                     Flow::End => return Ok(Flow::End),
@@ -341,7 +347,7 @@ fn interp<'a>(rt: &dyn Runtime, mut ops: &'a [Op], mut pos: usize, depth: usize,
                 if obs_all {
                     observe(&frame, model, st)?;
                 }
-                match interp(&frame, rest, pos + 1, depth + 1, model, obs_all, st)? {
+                match interp(&frame, rest, pos + 1, depth + 1, model, obs_all, fixed, st)? {
                     Flow::End => return Ok(Flow::End),
                     Flow::Popped(r, p) => {
                         model.layers.pop();
@@ -368,7 +374,7 @@ fn interp<'a>(rt: &dyn Runtime, mut ops: &'a [Op], mut pos: usize, depth: usize,
             }
             Op::SetGlobal(k, o) => {
                 let key = KEYS[k as usize];
-                let v = if o { MV::O(tag + 3) } else { MV::S(tag + 3) };
+                let v = if o { MV::O(tag + if fixed { 0 } else { 3 }) } else { MV::S(tag + if fixed { 0 } else { 3 }) };
                 let prev = rt.set_global(key.into(), mv_value(v));
                 let mprev = model.set_global(key, v);
                 check_prev("set_global", key, prev, mprev)?;
@@ -380,7 +386,7 @@ fn interp<'a>(rt: &dyn Runtime, mut ops: &'a [Op], mut pos: usize, depth: usize,
             }
             Op::SetIndex(k, o) => {
                 let key = KEYS[k as usize];
-                let v = if o { MV::O(tag + 4) } else { MV::S(tag + 4) };
+                let v = if o { MV::O(tag + if fixed { 0 } else { 4 }) } else { MV::S(tag + if fixed { 0 } else { 4 }) };
                 let prev = rt.set_index(key.into(), mv_value(v));
                 let mprev = model.set_index(key, v);
                 check_prev("set_index", key, prev, mprev)?;
@@ -414,18 +420,18 @@ fn check_prev(what: &str, key: &str, prev: Option<Value>, mprev: Option<MV>) -> 
 }
 
 /// Run one history over one base data map. Panics inside the runtime are reported as R5.
-fn run_history(base: (Slot, Slot), ops: &[Op], obs_all: bool, st: &mut Stats) -> Result<(), Fail> {
+fn run_history(base: (Slot, Slot), ops: &[Op], obs_all: bool, fixed: bool, st: &mut Stats) -> Result<(), Fail> {
     let r = crate::sched::catch(|| {
-        let d0 = map_object(&slot_map(base.0, base.1, 0));
+        let d0 = map_object(&slot_map(base.0, base.1, if fixed { FIXED_TAG } else { 0 }));
         let rt = RuntimeBuilder::new().set_globals(&d0).build();
-        let mut model = Model::new(base);
+        let mut model = Model::new(base, fixed);
         let mut local = Stats::default();
         let res = (|| {
             if obs_all {
                 observe(&rt, &model, &mut local)?;
             }
             // When the history ends in pops, `interp` returns Popped at depth 0 never; handle End only.
-            match interp(&rt, ops, 1, 0, &mut model, obs_all, &mut local)? {
+            match interp(&rt, ops, 1, 0, &mut model, obs_all, fixed, &mut local)? {
                 Flow::End => Ok(()),
                 Flow::Popped(..) => unreachable!("pop at depth 0 is a no-op"),
             }
@@ -448,11 +454,15 @@ pub struct Scn {
     pub base: (Slot, Slot),
     pub ops: Vec<Op>,
     pub class: String,
+    /// Fixed-value mode: all scalars are 7 and all objects {a: 7} (equal values can meet).
+    #[serde(default)]
+    pub fixed: bool,
 }
 
-fn violation(base: (Slot, Slot), ops: &[Op], class: String, detail: String) -> Violation {
-    let scn = Scn { base, ops: ops.to_vec(), class: class.clone() };
-    Violation { signature: class.clone(), class, detail: format!("{detail}; base data {base:?}; history {ops:?}"), scenario: serde_json::to_value(&scn).unwrap() }
+fn violation(base: (Slot, Slot), ops: &[Op], fixed: bool, class: String, detail: String) -> Violation {
+    let scn = Scn { base, ops: ops.to_vec(), class: class.clone(), fixed };
+    let mode = if fixed { "fixed values (scalar 7, object {a: 7})" } else { "unique values" };
+    Violation { signature: class.clone(), class, detail: format!("{detail}; base data {base:?}; {mode}; history {ops:?}"), scenario: serde_json::to_value(&scn).unwrap() }
 }
 
 fn random_history(rng: &mut Rng, ops: &[Op], len: usize) -> Vec<Op> {
@@ -497,7 +507,8 @@ impl Engine for C18 {
     }
     fn runs(&self, quick: bool) -> u64 {
         let n = all_ops().len() as u64;
-        let exhaustive_runs = 3 * n * n;
+        // one exhaustive pass with unique values, one (one step shallower) with the two fixed values
+        let exhaustive_runs = 2 * 3 * n * n;
         exhaustive_runs + if quick { 400 } else { 20_000 }
     }
 
@@ -506,40 +517,43 @@ impl Engine for C18 {
         let ops = all_ops();
         let n = ops.len() as u64;
         let mut st = Stats::default();
-        let exhaustive_runs = 3 * n * n;
+        let one_pass = 3 * n * n;
+        let exhaustive_runs = 2 * one_pass;
         let mut digest = Fnv::new();
         if index < exhaustive_runs {
             // all histories that start with the prefix (o1, o2) over base b, up to the tier's depth;
             // run (b, 0, 0) additionally covers the histories of length <= 1, run (b, o1, 0) those of length 1..
+            let fixed = index >= one_pass;
+            let index = index % one_pass;
             let b = BASES[(index / (n * n)) as usize];
             let o1 = ops[((index / n) % n) as usize];
             let o2 = ops[(index % n) as usize];
-            let depth = exhaustive_depth(quick);
+            let depth = if fixed { exhaustive_depth(quick) - 1 } else { exhaustive_depth(quick) };
             let mut hist = vec![o1, o2];
             let mut count = 0u64;
             let mut fail: Option<Violation> = None;
             if index % (n * n) == 0 {
                 // length 0 and length 1 histories for this base
-                if let Err((c, d)) = run_history(b, &[], true, &mut st) {
-                    fail = Some(violation(b, &[], c, d));
+                if let Err((c, d)) = run_history(b, &[], true, fixed, &mut st) {
+                    fail = Some(violation(b, &[], fixed, c, d));
                 }
                 for o in &ops {
                     count += 1;
                     if fail.is_none() {
-                        if let Err((c, d)) = run_history(b, &[*o], false, &mut st) {
-                            fail = Some(violation(b, &[*o], c, d));
+                        if let Err((c, d)) = run_history(b, &[*o], false, fixed, &mut st) {
+                            fail = Some(violation(b, &[*o], fixed, c, d));
                         }
                     }
                 }
             }
             // DFS over suffixes
-            fn dfs(b: (Slot, Slot), ops: &[Op], hist: &mut Vec<Op>, depth: usize, st: &mut Stats, count: &mut u64, fail: &mut Option<Violation>) {
+            fn dfs(b: (Slot, Slot), ops: &[Op], hist: &mut Vec<Op>, depth: usize, fixed: bool, st: &mut Stats, count: &mut u64, fail: &mut Option<Violation>) {
                 if fail.is_some() {
                     return;
                 }
                 *count += 1;
-                if let Err((c, d)) = run_history(b, hist, false, st) {
-                    *fail = Some(violation(b, hist, c, d));
+                if let Err((c, d)) = run_history(b, hist, false, fixed, st) {
+                    *fail = Some(violation(b, hist, fixed, c, d));
                     return;
                 }
                 if hist.len() >= depth {
@@ -547,14 +561,14 @@ impl Engine for C18 {
                 }
                 for o in ops {
                     hist.push(*o);
-                    dfs(b, ops, hist, depth, st, count, fail);
+                    dfs(b, ops, hist, depth, fixed, st, count, fail);
                     hist.pop();
                 }
             }
             if fail.is_none() {
-                dfs(b, &ops, &mut hist, depth, &mut st, &mut count, &mut fail);
+                dfs(b, &ops, &mut hist, depth, fixed, &mut st, &mut count, &mut fail);
             }
-            rep.bump("histories.exhaustive", count);
+            rep.bump(if fixed { "histories.exhaustive.fixed_values" } else { "histories.exhaustive" }, count);
             if let Some(v) = fail {
                 rep.violations.push(v);
             }
@@ -568,8 +582,9 @@ impl Engine for C18 {
                 let len = 4 + rng.below(9);
                 let b = BASES[rng.below(3)];
                 let h = random_history(&mut rng, &ops, len);
-                if let Err((c, d)) = run_history(b, &h, true, &mut st) {
-                    rep.violations.push(violation(b, &h, c, d));
+                let fixed = rng.chance(1, 2);
+                if let Err((c, d)) = run_history(b, &h, true, fixed, &mut st) {
+                    rep.violations.push(violation(b, &h, fixed, c, d));
                     break;
                 }
                 if i == 0 && index == exhaustive_runs {
@@ -596,7 +611,7 @@ impl Engine for C18 {
     fn replay(&self, scenario: &Json) -> Result<Option<Violation>, String> {
         let scn: Scn = serde_json::from_value(scenario.clone()).map_err(|e| format!("bad C18 scenario: {e}"))?;
         let mut st = Stats::default();
-        Ok(run_history(scn.base, &scn.ops, true, &mut st).err().map(|(c, d)| violation(scn.base, &scn.ops, c, d)))
+        Ok(run_history(scn.base, &scn.ops, true, scn.fixed, &mut st).err().map(|(c, d)| violation(scn.base, &scn.ops, scn.fixed, c, d)))
     }
 
     fn minimise(&self, v: &Violation, deadline: Instant) -> Violation {
@@ -604,7 +619,7 @@ impl Engine for C18 {
         let class = v.class.clone();
         let fails = |s: &Scn| {
             let mut st = Stats::default();
-            matches!(run_history(s.base, &s.ops, true, &mut st), Err((c, _)) if c == class)
+            matches!(run_history(s.base, &s.ops, true, s.fixed, &mut st), Err((c, _)) if c == class)
         };
         let candidates = |s: &Scn| -> Vec<Scn> {
             let mut out = vec![];
@@ -640,14 +655,14 @@ impl Engine for C18 {
         };
         let cur = crate::engine::minimise_greedy(scn, candidates, fails, deadline);
         let mut st = Stats::default();
-        match run_history(cur.base, &cur.ops, true, &mut st) {
-            Err((c, d)) => violation(cur.base, &cur.ops, c, d),
+        match run_history(cur.base, &cur.ops, true, cur.fixed, &mut st) {
+            Err((c, d)) => violation(cur.base, &cur.ops, cur.fixed, c, d),
             Ok(()) => v.clone(),
         }
     }
 
     fn rule(&self) -> String {
-        "operations {push plain scope d, push sandboxed scope d, push global layer, pop, set_global k v, set_index k v} with k in {a,b}, v in {scalar, object}, d in the 9 maps over {a,b}->{absent, scalar, object} (28 letters) over 3 base data maps; ALL histories up to length 5 (quick) / 6 (thorough) are enumerated, each executed on the real frame types and observed at its end (every prefix is itself enumerated), plus seeded histories of length 4-12 observed after every step; observation = get and try_get of all 6 paths of length 1-2, roots(), get_index of both keys; distinct_nontrivial = distinct abstract states reached, by hash of (layer-kind stack; for each path which layer answers and with what kind of value; counter kinds) — written values themselves are unique per operation and are not part of the state signature".into()
+        "operations {push plain scope d, push sandboxed scope d, push global layer, pop, set_global k v, set_index k v} with k in {a,b}, v in {scalar, object}, d in the 9 maps over {a,b}->{absent, scalar, object} (28 letters) over 3 base data maps; ALL histories up to length 5 (quick) / 6 (thorough) are enumerated with unique written values (every read attributable to one write) and again, one step shallower, with the quantifier's two fixed values (scalar 7, object {a: 7}; equal values can meet), each executed on the real frame types and observed at its end (every prefix is itself enumerated), plus seeded histories of length 4-12 observed after every step; observation = get and try_get of all 6 paths of length 1-2, roots(), get_index of both keys; distinct_nontrivial = distinct abstract states reached, by hash of (layer-kind stack; for each path which layer answers and with what kind of value; counter kinds) — written values themselves are unique per operation and are not part of the state signature".into()
     }
     fn assumptions(&self) -> Vec<String> {
         vec![
@@ -660,7 +675,7 @@ impl Engine for C18 {
         json!({"real": ["StackFrame", "SandboxedStackFrame", "GlobalFrame", "IndexFrame and RuntimeCore via RuntimeBuilder::build", "model::find / try_find"], "stub": ["none (data maps are plain liquid Objects)"], "model": "stack-of-maps reference model (engines/c18.rs)"})
     }
     fn exhaustive_note(&self, quick: bool) -> Option<String> {
-        Some(format!("exhaustive over all operation histories of length <= {} for 3 base data maps (28 operation letters); longer histories sampled", exhaustive_depth(quick)))
+        Some(format!("exhaustive over all operation histories of length <= {} with unique values and of length <= {} with the two fixed values, for 3 base data maps (28 operation letters); longer histories sampled", exhaustive_depth(quick), exhaustive_depth(quick) - 1))
     }
     fn exhaustive(&self, _quick: bool) -> bool {
         // the bounded space (all histories up to the tier's length) is enumerated completely; the
@@ -668,6 +683,6 @@ impl Engine for C18 {
         true
     }
     fn required_probes(&self) -> Vec<&'static str> {
-        vec!["histories.exhaustive", "histories.random"]
+        vec!["histories.exhaustive", "histories.exhaustive.fixed_values", "histories.random"]
     }
 }
